@@ -415,6 +415,12 @@ def make_comparer(name, spec, env):
         env.maybe_fail(name, k)
         if kind == 'equal':
             return utils.within_tolerance(comparer_params_eval[0], student_eval)
+        if kind == 'equal_tagged':
+            # equality, but a disagreement carries this comparer's name: which comparer judged a
+            # wrong answer is then visible in the result
+            if utils.within_tolerance(comparer_params_eval[0], student_eval):
+                return True
+            return {'grade_decimal': 0, 'msg': 'judged by ' + name}
         val = returns[k % len(returns)]
         if isinstance(val, dict):
             return dict(val)
